@@ -1056,6 +1056,10 @@ class StubsStringGenerator:
         if (qname_parts[0] == "builtins" and len(qname_parts) == 2) or import_qname == "typing.Any":
             return
 
+        # A name without a module path (e.g. a local variable or an unresolved docstring type) cannot be imported
+        if len(qname_parts) == 1:
+            return
+
         module_id = self._get_module_id(get_actual_id=True).replace("/", ".")
         if module_id not in import_qname:
             # We need the full path for an import from the same package, but we sometimes don't get enough information,
